@@ -27,6 +27,9 @@ type wlWG struct {
 	// SharedBuilder: the tasks call Build on one builder value (the builder is
 	// stateless today; "concurrent builds in other goroutines" covers it)
 	SharedBuilder bool `json:"shared_builder,omitempty"`
+	// Prelude (base variant): models built on the same builder value before the
+	// model under test (a call history).
+	Prelude []*Model `json:"prelude,omitempty"`
 }
 
 type wgOutcome struct {
@@ -570,7 +573,26 @@ func (c *wgCtx) check(cfg simrt.Config) ([]mismatch, simrt.Stats, string) {
 	wl := c.wl
 	switch wl.Variant {
 	case "", "base":
-		out, st := execBuild(c.pm, cfg)
+		var out wgOutcome
+		var st simrt.Stats
+		if len(wl.Prelude) == 0 {
+			out, st = execBuild(c.pm, cfg)
+		} else {
+			pre := make([]*openfgav1.AuthorizationModel, len(wl.Prelude))
+			for i, m := range wl.Prelude {
+				pre[i] = m.toProto()
+			}
+			simrt.Begin(cfg)
+			simrt.CountFault("history.warm")
+			simrt.Run([]func(){func() {
+				builder := graph.NewWeightedAuthorizationModelGraphBuilder()
+				for _, pm := range pre {
+					_ = doBuildWith(builder, pm)
+				}
+				out = doBuildWith(builder, c.pm)
+			}})
+			st = simrt.End()
+		}
 		summary := out.verdict()
 		if out.Err != nil {
 			summary += " (" + out.ErrClass + ")"
@@ -708,6 +730,21 @@ func (c *wgCtx) check(cfg simrt.Config) ([]mismatch, simrt.Stats, string) {
 		for _, rs := range results {
 			if rs.out.Mutated {
 				add("C10", "structure.model_modified", "", "Build modified its input model")
+			}
+			if rs.idx == 0 {
+				// the model under test: the reference clauses apply to every build of it
+				wf := c.ref.wellFounded()
+				switch {
+				case rs.out.Panic != "":
+					add("C05", "verdict.panic", "", "Build panicked under concurrency: %s", rs.out.Panic)
+				case rs.out.Err == nil && !wf:
+					add("C05", "verdict.accepts_unfounded", "", "task %d accepted a model that is not well-founded: %s", rs.task, strings.Join(c.ref.reasons, "; "))
+				case rs.out.Err != nil && wf:
+					add("C05", "verdict.rejects_wellfounded", "", "task %d rejected a well-founded model: %v", rs.task, rs.out.Err)
+				}
+				if rs.out.accepted() && wf {
+					mm = append(mm, compareWithRef(rs.out.G, c.ref)...)
+				}
 			}
 			if rs.out.verdict() != canon[rs.idx].verdict() {
 				add("C06", "determinism.concurrent.verdict", "", "task %d model %d: verdict %s, sequential %s", rs.task, rs.idx, rs.out.verdict(), canon[rs.idx].verdict())
@@ -937,6 +974,35 @@ func wgRunOne(b *BatchResult, prop string, seed, run uint64, p wgParams) {
 		}
 	}
 
+	// call history: 1-2 other models built on the same builder value first;
+	// every clause of the property is evaluated on the last build as usual
+	if run%3 == 0 {
+		wlh := &wlWG{Variant: "base", Model: m}
+		for i := 0; i < 1+r.intn(2); i++ {
+			var pm *Model
+			if r.chance(50) {
+				// a near-duplicate: same names, one relation dropped or redirected
+				cands := modelCandidates(m)
+				if len(cands) > 0 {
+					pm = cands[r.intn(len(cands))]
+				}
+			}
+			if pm == nil {
+				pm = genModel(r, biasKnobs(prop, r, drawKnobs(r)))
+			}
+			wlh.Prelude = append(wlh.Prelude, pm)
+		}
+		ch := &wgCtx{wl: wlh, ref: c.ref, pm: c.pm, canon: c.canon, csnap: c.csnap}
+		s := canonS
+		if len(fam) > 0 && r.chance(50) {
+			s = fam[r.intn(len(fam))]
+		}
+		mm, st, _ := ch.check(s.cfg)
+		b.addStats(st, nontriv)
+		report(wlh, s, mm, st)
+		b.Probes["builds_after_a_history_on_one_builder"]++
+	}
+
 	if prop == "C06" {
 		// (b) type definition order
 		for i := 0; i < 2; i++ {
@@ -960,8 +1026,10 @@ func wgRunOne(b *BatchResult, prop string, seed, run uint64, p wgParams) {
 			report(wl3, s, mm, st)
 			b.Probes["operand_permutations"]++
 		}
-		// (d) concurrent builders
-		if run%4 == 0 {
+	}
+	{
+		// (d) concurrent builders (every property: each evaluates its own clauses)
+		if (prop == "C06" && run%4 == 0) || (prop != "C06" && run%8 == 0) {
 			k2 := biasKnobs(prop, r, drawKnobs(r))
 			other := genModel(r, k2)
 			wl4 := &wlWG{Variant: "concurrent", Model: m, Others: []*Model{other}, SharedBuilder: r.chance(50)}
